@@ -123,7 +123,16 @@ def far_file_case(draw):
     edges = [[-60052752000, 0], [-60052752001, 999999], [255485231999, 999999], [255485232000, 0], [255485232000, 1]]
     for _ in range(draw(st.integers(0, 2))):
         pts.insert(draw(st.integers(0, len(pts))), dict(zip(('sec', 'us'), draw(st.sampled_from(edges)))))
-    return {'points': [[p['sec'], p['us']] for p in pts], 'second_segment': draw(st.booleans())}
+    case = {'points': [[p['sec'], p['us']] for p in pts], 'second_segment': draw(st.booleans())}
+    if draw(st.integers(0, 2)) == 0:
+        # the same kind of values handed over in nanosecond unit (what pandas produces); datetime64[ns] spans 1678 - 2262
+        lo, hi = -7 * 10 ** 9, 11 * 10 ** 9 + 2 * 10 ** 8
+        near = [9223372036, 9223372037, 9223372035, 11297000000, -7100000000]     # 2^63 ns after the epoch; ends of the range
+        n = draw(st.integers(1, 4))
+        case['points'] = [[draw(st.one_of(st.sampled_from(near), st.integers(lo, hi))),
+                           draw(st.sampled_from([0, 1, 999999, 500000]))] for _ in range(n)]
+        case['unit'] = 'ns'
+    return case
 
 
 def check_file_far(case, rec):
@@ -131,6 +140,9 @@ def check_file_far(case, rec):
     from nptdms import TdmsFile, TdmsWriter, ChannelObject, RootObject
     arr = np.array([EPOCH_US + np.timedelta64(s, 's') + np.timedelta64(u, 'us') for (s, u) in case['points']],
                    dtype='datetime64[us]')
+    if case.get('unit') == 'ns':
+        arr = arr.astype('datetime64[ns]')
+        rec.label('nanosecond_unit')
     years = arr.astype('datetime64[Y]').astype(np.int64) + 1970
     outside = bool(np.any((years < 1) | (years > 9999)))
     rec.nontrivial(outside or any(u % 1000 for (_s, u) in case['points']))
@@ -148,14 +160,16 @@ def check_file_far(case, rec):
     except Exception as e:      # noqa
         rec.violation('file_roundtrip:raised', '%r: %s' % (case['points'], describe_exc(e)), key=exc_key(e))
         return
-    want = np.concatenate([arr, arr[::-1]]) if case['second_segment'] else arr
+    want = (np.concatenate([arr, arr[::-1]]) if case['second_segment'] else arr).astype('datetime64[us]')
     if got.dtype != np.dtype('<M8[us]') or len(got) != len(want) or not bool(np.all(got == want)):
         rec.violation('file_roundtrip:data', 'wrote %s, read %s (%s)' % (want, got, got.dtype))
     if after.tolist() != [0, 1, 2]:
         rec.violation('file_roundtrip:data', 'the channel written after the timestamps reads %r' % (after.tolist(),))
     for k, v in props.items():
-        if tf.properties.get(k) != v:
-            rec.violation('file_roundtrip:property', 'property %s: wrote %s read %s' % (k, v, tf.properties.get(k)))
+        r = tf.properties.get(k)
+        v = v.astype('datetime64[us]')         # compared in the unit read back (a wrong far-away value must not overflow the comparison)
+        if not isinstance(r, np.datetime64) or np.datetime_data(r.dtype)[0] != 'us' or r != v:
+            rec.violation('file_roundtrip:property', 'property %s: wrote %s read %s' % (k, v, r))
             break
 
 
